@@ -284,4 +284,147 @@ def replay_scalars(a):
     return a.replay_cases(exe, data, cases)
 
 
-SITES = {"C11": [scalar_typing, type_ref, short_form_tables]}
+def serde_number_typing(a):
+    """the loaders of `test` / the library API (serde_yaml / serde_json -> Value): a number becomes Int only with its exact
+    value; anything that does not fit i64 must not turn into some other integer"""
+    I64MAX, U64MAX = 9223372036854775807, 18446744073709551615
+    cands = []
+    for label, rx in (("serde_yaml", r"values::<impl at guard/src/rules/values\.rs:\d+:\d+: \d+:\d+>::try_from"),
+                      ("serde_json", r"values::<impl at guard/src/rules/values\.rs:\d+:\d+: \d+:\d+>::try_from")):
+        first = r"_1: &" + label + r"::Value"
+        st = {}
+
+        def pure(ex, av, tag, mk):
+            k = (tag, av[0][1] if av and av[0][0] == "opaque" else id(av))
+            if k not in ex.proj:
+                ex.proj[k] = mk()
+            return ex.proj[k]
+
+        def m_is_i64(ex, av):
+            return pure(ex, av, "is_i64", lambda: ex.havoc("bool"))
+
+        def m_is_u64(ex, av):
+            return pure(ex, av, "is_u64", lambda: ex.havoc("bool"))
+
+        def m_as_i64(ex, av):
+            def mk():
+                i = ex.fresh("Int", "numi")
+                ex.side.append(f"(and (<= (- {I64MAX + 1}) {i}) (<= {i} {I64MAX}))")
+                t = ex.fresh("Int", "hasi")
+                b = m_is_i64(ex, av)[1]
+                ex.side.append(f"(= {t} (ite {b} 1 0))")
+                return ("enum", "Option", t, {"Some": ("int", i)})
+            return pure(ex, av, "as_i64", mk)
+
+        def m_as_u64(ex, av):
+            def mk():
+                u = ex.fresh("Int", "numu")
+                t = ex.fresh("Int", "hasu")
+                bi, bu = m_is_i64(ex, av)[1], m_is_u64(ex, av)[1]
+                i = m_as_i64(ex, av)[3]["Some"][1]
+                # serde: is_u64 <=> the number is a non-negative integer that fits u64; is_i64 <=> an integer that fits i64
+                ex.side.append(f"(and (<= 0 {u}) (<= {u} {U64MAX}) (= {t} (ite {bu} 1 0)) (=> (and {bi} {bu}) (= {u} {i})) "
+                               f"(=> (and {bu} (not {bi})) (> {u} {I64MAX})) (=> (and {bi} (not {bu})) (< {i} 0)))")
+                return ("enum", "Option", t, {"Some": ("int", u)})
+            return pure(ex, av, "as_u64", mk)
+        def m_unwrap(ex, av):
+            # Option::unwrap: the payload; unwrapping None is a panic and is an obligation of its own (below)
+            if av and av[0][0] == "enum" and "Some" in av[0][3]:
+                return av[0][3]["Some"]
+            return ex.opq()
+        try:
+            ex = a.exec(rx, {"unwrap": m_unwrap, "is_i64": m_is_i64, "is_u64": m_is_u64, "as_i64": m_as_i64, "as_u64": m_as_u64, "as_f64": lambda ex, av: ("enum", "Option", "1", {"Some": ex.opq()}),      # contract: every serde number has an f64 reading
+                             "to_owned": mirexec.m_identity, "to_string": mirexec.m_identity, "clone": mirexec.m_identity,
+                             "next": mirexec.m_iter_next, "into_iter": mirexec.m_new_iter, "iter": mirexec.m_new_iter,
+                             "try_from": m_result_opq, "try_fold": m_result_opq, "handle_tagged_value": m_result_opq,
+                             "count": lambda ex, av: ex.havoc("usize"), "strip_prefix": mirexec.m_option},
+                        log=("unwrap",), unroll=1, max_paths=20000, first_arg_re=first)
+        except Untranslatable as e:
+            a.ob.items.append({"obligation": f"loader/{label}/number-typing", "describe": f"not translatable: {e}", "verdicts": {},
+                               "status": "inconclusive", "model": None})
+            continue
+        a.fns.append(f"rules::values::<impl TryFrom<&{label}::Value> for Value>::try_from (number arm)")
+        bad, nnum = [], 0
+        for p in ex.paths:
+            r = p.ret
+            nums = [e for e in p.events if e[0] == "call" and e[1] == "is_i64"]
+            if not nums or p.outcome != "return" or not r or r[0] != "enum" or r[1] != "Result":
+                if nums and p.outcome != "return":
+                    bad.append(pc_term(p.pc))        # a number never panics the loader
+                continue
+            nnum += 1
+            for e in p.events:
+                if e[0] == "call" and e[1] == "unwrap" and e[2] and e[2][0][0] == "enum" and "Some" in e[2][0][3]:
+                    bad.append(f"(and {pc_term(p.pc)} (= {e[2][0][2]} 0))")          # unwrap() on None would panic
+            num = nums[0][2]
+            bi, bu = m_is_i64(ex, num)[1], m_is_u64(ex, num)[1]
+            i = m_as_i64(ex, num)[3]["Some"][1]
+            okv = r[3].get("Ok")
+            if okv is None or okv[0] != "variant":
+                bad.append(f"(and {pc_term(p.pc)} (= {r[2]} 0))")
+                continue
+            if okv[2] == "Int":
+                v = okv[3][0]
+                exact = f"(and {bi} (= {v[1]} {i}))" if v[0] == "int" else "false"
+                bad.append(f"(and {pc_term(p.pc)} (not {exact}))")
+            elif okv[2] == "Float":
+                bad.append(f"(and {pc_term(p.pc)} {bi})")              # an i64 integer stays an Int
+            else:
+                bad.append(pc_term(p.pc))
+        c = a.discharge(f"loader/{label}/number-typing", ex, bad,
+                        f"{label} loader of `test` / run_checks, number arm ({nnum} paths), serde's is_i64 / is_u64 / as_* modelled by their "
+                        "contracts over mathematical integers: the result is Int(v) only if the number is an integer that fits i64 and v is "
+                        "exactly that integer; an i64 integer never becomes a Float; no panic")
+        if c:
+            cands.append(c)
+    if cands:
+        rep = replay_big_numbers(a)
+        for c in cands:
+            c["replay"] = rep
+            c["reproduced"] = rep.get("reproduced", False)
+            a.candidates.append(c)
+
+
+def replay_big_numbers(a):
+    """`test` (serde_yaml loader) against `validate` (own loader) on boundary integers: same rule statuses"""
+    import json, os, shutil, subprocess, tempfile
+    exe = a.cli()
+    if not exe:
+        return {"reproduced": False, "note": "native build failed"}
+    rules = "rule neg {\n  x < 0\n}\nrule pos {\n  x > 0\n}\nrule isint {\n  x is_int\n}\n"
+    d = tempfile.mkdtemp(prefix="cfnverif_replay_")
+    env = dict(os.environ)
+    env["RUST_BACKTRACE"] = "0"
+    out, tried = [], []
+    try:
+        open(os.path.join(d, "r.guard"), "w").write(rules)
+        for lit in ("9223372036854775807", "9223372036854775808", "18446744073709551615", "-9223372036854775808", "0", "-1", "4294967296"):
+            open(os.path.join(d, "d.json"), "w").write('{"x":\n ' + lit + '}\n')
+            pr = subprocess.run([exe, "validate", "-r", "r.guard", "-d", "d.json", "--structured", "-o", "json", "--show-summary", "none"],
+                                cwd=d, capture_output=True, text=True, env=env, timeout=60)
+            try:
+                rep = json.loads(pr.stdout)[0]
+            except Exception:
+                tried.append({"x": lit, "problem": "validate gave no report", "exit": pr.returncode})
+                continue
+            val = {n: ("PASS" if n in rep.get("compliant", []) else "SKIP" if n in rep.get("not_applicable", []) else "FAIL") for n in ("neg", "pos", "isint")}
+            open(os.path.join(d, "t.yaml"), "w").write("- name: c\n  input:\n    x: " + lit + "\n  expectations:\n    rules:\n" +
+                                                       "".join(f"      {n}: {s}\n" for n, s in val.items()))
+            pt = subprocess.run([exe, "test", "-r", "r.guard", "-t", "t.yaml", "-o", "json"], cwd=d, capture_output=True, text=True, env=env, timeout=60)
+            try:
+                tc = json.loads(pt.stdout)["test_cases"][0]
+                failed = tc.get("failed_rules", [])
+            except Exception:
+                tried.append({"x": lit, "problem": "test gave no report", "exit": pt.returncode})
+                continue
+            ok = pt.returncode == 0 and not failed
+            tried.append({"x": lit, "validate": val, "ok": ok})
+            if not ok:
+                out.append({"x": lit, "rules_file": rules, "validate_statuses": val, "test_disagrees_on": failed, "test_exit": pt.returncode})
+        return {"reproduced": bool(out), "mismatches": out[:3], "tried": tried,
+                "note": "; ".join(t["problem"] for t in tried if "problem" in t) or None}
+    finally:
+        shutil.rmtree(d, ignore_errors=True)
+
+
+SITES = {"C11": [scalar_typing, type_ref, short_form_tables, serde_number_typing], "C16": [serde_number_typing]}
